@@ -92,6 +92,11 @@ chk("C13", "translation_validation", "exhaustive differential execution of the r
     "Trusted: the C reference as packaged; the datasheet PA/image-calibration tables fed to the reference (SWL2001 leaves them to the BSP); documented errata/policy mirrors listed in DESIGN.md §3 C13 (errata 2.3 with the modulation config, AgcAutoOn forced off, reserved/dead bits written with datasheet defaults).",
     "DESIGN.md §3 C13")
 
+chk("C14", "exploration", "explicit-state BFS over API call sequences of the real driver against datasheet chip models, with deviation-bounded fault and drop injection",
+    "The real LoRa<Sx126x>/LoRa<Sx127x> drivers (and the LoRaWAN radio adapter) run against behavioural chip models (command/register decode, operating mode, BUSY high while asleep, configuration lost on cold sleep and reset, latched interrupt flags, operations in flight until the interrupt wait). BFS over sequences of {init, sleep warm/cold, prepare_for_tx, tx, prepare_for_rx single/continuous/duty, start_rx, complete_rx, rx_switch_channel, listen, prepare_for_cad, cad, set_lora_sync_word, time passing} x chip outcome {done, timeout, CRC error, header error, nothing} x {0,1} spurious interrupt wake-ups; with deviations additionally a one-shot fault at every SPI/BUSY/IRQ/RF-switch/reset position the call consumes and a drop at every position the future can be parked on. After every call: no panic / endless wait, no command to a sleeping chip, nothing started unconfigured, a refusal consumed no environment call, no start without a matching preparation, driver belief (cfg-guarded accessors) compatible with the chip mode, after a failed or timed-out TX/RX/CAD the chip is inactive and the driver believes Standby.",
+    "Trusted: the chip models in chips.rs (datasheet transcription; RX duty-cycle sleep phase not modelled). One known finding (SX127x interrupted reset sequence) is listed in known_findings.json.",
+    "DESIGN.md §3 C14")
+
 chk("C17", "exploration", "exhaustive input sweeps through the real drivers, SPI writes decoded with datasheet formulas",
     "Through the real RadioKind implementations over a recording SPI: (a) set_channel for every 100 Hz LoRaWAN channel frequency plus a 1 kHz stride over 137-1020 MHz (thorough: every 1 Hz, 8.8e8 values per chip family), PLL word decoded and compared in exact integer arithmetic; (b) every power request -128..127 and i32 extremes x 8 chip/PA variants x 3 bands, PA registers decoded with the datasheet tables (clamped request, never above it, reserved bits intact); (c) every symbol timeout 0..65535; (d) every (SF,BW) x margin 0..1000 ms through the LoRaWAN adapter against 12.25 symbols + margin in exact rational arithmetic; (e) every raw packet-status value of both chip families against the datasheet conversions.",
     "Trusted: the datasheet decode formulas transcribed in c17.rs; ST's characterisation admitted for the STM32WL 14 dBm row; for SX127x negative-SNR RSSI both the datasheet and the reference-driver formula are admitted.",
@@ -140,6 +145,6 @@ def main():
     json.dump(m, open("/verif/MANIFEST.json", "w"), indent=1)
     print("checks:", len(checks), "not_applicable:", len(m["not_applicable"]))
 
-HOOK_COMMITS = ["cc5ed0e"]
+HOOK_COMMITS = ["cc5ed0e", "bc6c625"]
 if __name__ == "__main__":
     main()
